@@ -13,7 +13,15 @@ import (
 // (every callee is treated as possibly propagating any input to any output).
 // This is a may-flow over-approximation: if a source is NOT in the set, the flow definitely
 // does not exist.
-func BackwardReach(v ssa.Value) map[ssa.Value]bool {
+func BackwardReach(v ssa.Value) map[ssa.Value]bool { return backwardReach(v, true) }
+
+// BackwardReachPure is BackwardReach without the "a callee may fill its pointer-like arguments
+// from its other inputs" model: only assignments, operators, loads of stored values and call
+// results (from all call inputs) propagate. Used where the over-approximation of the mutation
+// model would connect everything through a shared receiver.
+func BackwardReachPure(v ssa.Value) map[ssa.Value]bool { return backwardReach(v, false) }
+
+func backwardReach(v ssa.Value, mutation bool) map[ssa.Value]bool {
 	seen := map[ssa.Value]bool{}
 	var fn *ssa.Function
 	if in, ok := v.(ssa.Instruction); ok {
@@ -40,7 +48,7 @@ func BackwardReach(v ssa.Value) map[ssa.Value]bool {
 		seen[x] = true
 		// a callee may store any of its inputs into memory reachable from a pointer-like argument
 		// (e.g. f(destMap, src) fills destMap from src): inputs of calls x is passed to flow into x
-		if _, isIface := x.Type().Underlying().(*types.Interface); pointerLike(x.Type()) && !isIface {
+		if _, isIface := x.Type().Underlying().(*types.Interface); mutation && pointerLike(x.Type()) && !isIface {
 			if refs := x.Referrers(); refs != nil {
 				for _, r := range *refs {
 					cc := CallOf(r)
